@@ -324,6 +324,44 @@ def _arg_thunks(rng):
     return out
 
 
+def augmented_assignment_pred(seed):
+    """`b = a; b op= c` must leave `a` (and module constants reached that way) unchanged: field elements are values, so the
+    augmented operators may not update in place. Exercised for every field class, both packages, and for generator coordinates."""
+    import operator
+    import random
+    import importlib
+    r = random.Random(seed)
+    bad = []
+    ops = [("+=", operator.iadd), ("-=", operator.isub), ("*=", operator.imul), ("/=", operator.itruediv), ("**=", operator.ipow)]
+    for modname in ("py_ecc.bls12_381", "py_ecc.bn128", "py_ecc.optimized_bls12_381", "py_ecc.optimized_bn128"):
+        M = importlib.import_module(modname)
+        for cname in ("FQ", "FQ2", "FQ12"):
+            C = getattr(M, cname)
+            deg = {"FQ": 0, "FQ2": 2, "FQ12": 12}[cname]
+            mk = (lambda: C(r.randrange(2, 1 << 60))) if deg == 0 else (lambda: C([r.randrange(2, 1 << 60) for _ in range(deg)]))
+            for sym, op in ops:
+                a = mk()
+                before = repr(a), (int(a.n) if deg == 0 else tuple(int(c) for c in a.coeffs))
+                alias = a
+                rhs = 3 if sym == "**=" else (mk() if (r.random() < 0.5 or (deg and sym in ("+=", "-="))) else 5)
+                res = op(alias, rhs)
+                after = repr(a), (int(a.n) if deg == 0 else tuple(int(c) for c in a.coeffs))
+                if after != before:
+                    bad.append(f"{modname}.{cname}: `b = a; b {sym} {type(rhs).__name__}` changed a")
+                if res is a:
+                    bad.append(f"{modname}.{cname}: `{sym}` returned its left operand (in-place update)")
+        # a coordinate of a module constant used as an accumulator
+        G1 = M.G1
+        x0 = G1[0]
+        snap = repr(G1)
+        t = x0
+        t += 1
+        t *= 2
+        if repr(M.G1) != snap:
+            bad.append(f"{modname}: `t = G1[0]; t += 1` changed the generator constant")
+    return (not bad, f"augmented assignment on an aliased field element: {bad[:4]}")
+
+
 def predicates(rng, tier, only=None):
     ps = []
     hs = histories(rng, tier)
@@ -335,6 +373,7 @@ def predicates(rng, tier, only=None):
     ps.append(Pred("fresh-interpreter", hash_function_history_pred, (("sha512", "sha384", "blake2b", "sha256"),)))
     ps.append(Pred("fresh-interpreter", subclass_history_pred, (True,)))
     ps.append(Pred("constants-unchanged", introspection_pred, ()))
+    ps.append(Pred("arguments-unchanged", augmented_assignment_pred, (rng.randrange(1 << 30),)))
     for name, th in _arg_thunks(rng):
         ps.append(Pred("arguments-unchanged", args_pred, (name, th)))
     if only:
